@@ -117,10 +117,10 @@ package main
 //@   ensures [C10,C12] ncalls("NewFileWriter") == 1 ==> ((result == nil) == (callres("NewFileWriter", 1).1 == nil && ncalls("WriteHeader") == 1 && callres("WriteHeader", 1) == nil))
 //@   ensures [C10,C12] ncalls("NewFileWriter") == 1 && result == nil ==> fw.writer == callres("NewFileWriter", 1).0 && ncalls("Close") == 0
 //@   ensures [C10,C12] ncalls("NewFileWriter") == 1 && result != nil ==> fw.writer == old(fw.writer) && (ncalls("WriteHeader") == 1 ==> ncalls("Close") == 1)
-//@   ensures [C11] ncalls("WriteHeader") == 1 ==> ncalls("Sprintf") == 1 && callarg("Sprintf", 1, 0) == "%striggeredthresh: %d\n" && len(callarg("Sprintf", 1, 1)) == 2
-//@   ensures [C11] ncalls("WriteHeader") == 1 && ncalls("Sprintf") == 1 ==> unboxstr(callarg("Sprintf", 1, 1)[0]) == old(fw.motionYAML)
-//@   ensures [C11] ncalls("WriteHeader") == 1 && ncalls("Sprintf") == 1 ==> dyntype(callarg("Sprintf", 1, 1)[1]) == typecode("uint16") && unboxint(callarg("Sprintf", 1, 1)[1]) == tempThreshold
-//@   ensures [C11] ncalls("WriteHeader") == 1 ==> callarg("WriteHeader", 1, 1).MotionConfig == callres("Sprintf", 1) && callarg("WriteHeader", 1, 1).BackgroundFrame == background && callarg("WriteHeader", 1, 1).DeviceName == old(fw.header.DeviceName) && callarg("WriteHeader", 1, 1).FPS == old(fw.header.FPS) && callarg("WriteHeader", 1, 1).PreviewSecs == old(fw.header.PreviewSecs)
+//@   ensures [C04,C11] ncalls("WriteHeader") == 1 ==> ncalls("Sprintf") == 1 && callarg("Sprintf", 1, 0) == "%striggeredthresh: %d\n" && len(callarg("Sprintf", 1, 1)) == 2
+//@   ensures [C04,C11] ncalls("WriteHeader") == 1 && ncalls("Sprintf") == 1 ==> unboxstr(callarg("Sprintf", 1, 1)[0]) == old(fw.motionYAML)
+//@   ensures [C11,C15] ncalls("WriteHeader") == 1 && ncalls("Sprintf") == 1 ==> dyntype(callarg("Sprintf", 1, 1)[1]) == typecode("uint16") && unboxint(callarg("Sprintf", 1, 1)[1]) == tempThreshold
+//@   ensures [C04,C11,C15] ncalls("WriteHeader") == 1 ==> callarg("WriteHeader", 1, 1).MotionConfig == callres("Sprintf", 1) && callarg("WriteHeader", 1, 1).BackgroundFrame == background && callarg("WriteHeader", 1, 1).DeviceName == old(fw.header.DeviceName) && callarg("WriteHeader", 1, 1).FPS == old(fw.header.FPS) && callarg("WriteHeader", 1, 1).PreviewSecs == old(fw.header.PreviewSecs)
 //@   ensures [C11] result == nil ==> fw.header.BackgroundFrame == nil
 //@   ensures [C17] !old(fw.constantRecorder) ==> ncalls("deleteExcessRecordings") == 0
 
